@@ -6,6 +6,10 @@
 typedef struct { uint8_t valid, type, active, pending, sync_cnt; uint16_t inh_cfg, evt_cfg, inh, evt, inh_rem, ev_rem; } MT;
 static struct { uint8_t op; uint8_t map0; MT t[2]; } M;      /* map0: 3 = TPDO0 maps {A8,P16,B8[0]}, 2 = {A8,P16} (initial), 1 = {A8} */
 static int SYNC_N, TWO_EVENT;
+/* cfgs 54..: both TPDOs live on timers of their own (inhibit/event in ticks), so that a timer id one of them keeps beyond the
+ * life of its action would hit the other one's timer */
+static const struct { uint16_t inh0, evt0, inh1, evt1; } TMR2[] = { { 3, 2, 2, 0 }, { 3, 2, 0, 3 }, { 0, 3, 0, 4 }, { 2, 4, 3, 3 }, { 0, 3, 2, 0 }, { 3, 0, 2, 2 } };
+#define N_TMR2 ((int)(sizeof TMR2 / sizeof TMR2[0]))
 
 enum { E_TRIG0, E_TRIGOBJ, E_WR_CHG, E_WR_SAME, E_WR_P16, E_SYNC, E_TICK, E_START, E_PREOP, E_STOP, E_RESET, E_INVAL, E_REVAL, E_TYPE254, E_TYPE255, E_INH0, E_INH2, E_INH3, E_EVT0, E_EVT3, E_EVT4, E_REMAP1, E_REMAP3, E_WR_A16, E_N };
 static const char *const EN[] = { "COTPdoTrigPdo(0)", "COTPdoTrigObj(async object)", "write async object (changed)", "write async object (same value)", "write second mapped object", "SYNC", "tick", "NMT start", "NMT pre-op", "NMT stop",
@@ -14,7 +18,8 @@ static const char *const EN[] = { "COTPdoTrigPdo(0)", "COTPdoTrigObj(async objec
 static const char *cfg_name(int c)
 {
     static char b[64]; static const int SN[] = { 1, 2, 3, 240 };
-    if (c >= 36) snprintf(b, sizeof b, "TPDO0 type %d inhibit %d event %d; TPDO1 event-driven; OPERATIONAL", 254 + (c / 9) % 2, (int[]){ 0, 2, 3 }[(c / 3) % 3], (int[]){ 0, 3, 4 }[c % 3]);
+    if (c >= 54) snprintf(b, sizeof b, "TPDO0 inhibit %d event %d; TPDO1 inhibit %d event %d; both event-driven; OPERATIONAL", TMR2[c - 54].inh0, TMR2[c - 54].evt0, TMR2[c - 54].inh1, TMR2[c - 54].evt1);
+    else if (c >= 36) snprintf(b, sizeof b, "TPDO0 type %d inhibit %d event %d; TPDO1 event-driven; OPERATIONAL", 254 + (c / 9) % 2, (int[]){ 0, 2, 3 }[(c / 3) % 3], (int[]){ 0, 3, 4 }[c % 3]);
     else snprintf(b, sizeof b, "TPDO0 type %d inhibit %d event %d; TPDO1 sync type %d%s", 254 + (c / 9) % 2, (int[]){ 0, 2, 3 }[(c / 3) % 3], (int[]){ 0, 3, 4 }[c % 3], SN[c % 4], c >= 18 ? " started OPERATIONAL" : "");
     return b;
 }
@@ -31,12 +36,17 @@ static int build(int cfg)
     SYNC_N = SN[c % 4]; TWO_EVENT = cfg >= 36;
     NC.tpdo[1].present = 1; NC.tpdo[1].cobid = 0x40000281u; NC.tpdo[1].type = (uint8_t)(TWO_EVENT ? 254 : SYNC_N); NC.tpdo[1].nmap = 1; NC.tpdo[1].map[0] = TWO_EVENT ? NC_MAP(0x2101, 0, 16) : NC_MAP(0x2110, 0, 8);
     NC.operational = cfg >= 18;
+    if (cfg >= 54) {
+        NC.tpdo[0].type = 254; NC.tpdo[0].inhibit = (uint16_t)(TMR2[cfg - 54].inh0 * 10); NC.tpdo[0].event = TMR2[cfg - 54].evt0;
+        NC.tpdo[1].inhibit = (uint16_t)(TMR2[cfg - 54].inh1 * 10); NC.tpdo[1].event = TMR2[cfg - 54].evt1;
+    }
     nc_build();
     (void)CONodeGetErr(&Node);
     memset(&M, 0, sizeof M);
     M.t[0].valid = 1; M.t[0].type = NC.tpdo[0].type; M.t[0].inh_cfg = INH[(c / 3) % 3]; M.t[0].evt_cfg = EVT[c % 3];
     M.t[1].valid = 1; M.t[1].type = (uint8_t)(TWO_EVENT ? 254 : SYNC_N); M.map0 = 2;
-    if (NC.operational) { M.op = 1; for (int i = 0; i < 2; i++) { MT *t = &M.t[i]; t->active = 1; t->inh = t->inh_cfg; t->evt = t->type >= 254 ? t->evt_cfg : 0; t->ev_rem = t->evt; } }
+    if (cfg >= 54) { M.t[0].type = 254; M.t[0].inh_cfg = TMR2[cfg - 54].inh0; M.t[0].evt_cfg = TMR2[cfg - 54].evt0; M.t[1].inh_cfg = TMR2[cfg - 54].inh1; M.t[1].evt_cfg = TMR2[cfg - 54].evt1; }
+    if (NC.operational) { M.op = 1; for (int i = 0; i < 2; i++) { MT *t = &M.t[i]; t->active = 1; t->inh = t->inh_cfg; t->evt = t->type >= 254 ? t->evt_cfg : 0; t->ev_rem = (uint16_t)(t->evt ? t->evt + i : 0); } }
     W_REG(M);
     return E_N;
 }
@@ -131,16 +141,21 @@ static int step(int e)
     (void)CONodeGetErr(&Node);
     /* ---- compare TPDO frames ---- */
     {
-        int n = 0;
+        int n = 0, used[8] = { 0 };
         for (int i = 0; i < OBS.ntx; i++) {
             const WFrame *f = &OBS.tx[i];
             if (f->id == 0x581 || (f->id == 0x701 && e == E_RESET)) continue;
-            if (n < X.n && n < 8) {
-                const WFrame *w = &X.f[n];
-                if (f->id != w->id || f->dlc != w->dlc || memcmp(f->d, w->d, 8)) {
+            /* the order among different TPDOs within one step is not specified: match per identifier, in order */
+            int k = 0;
+            while (k < X.n && k < 8 && (used[k] || X.f[k].id != f->id)) k++;
+            if (k < X.n && k < 8) {
+                const WFrame *w = &X.f[k]; used[k] = 1;
+                if (f->dlc != w->dlc || memcmp(f->d, w->d, 8)) {
                     char a[40], b[40]; w_fmt_frame(a, sizeof a, f); w_fmt_frame(b, sizeof b, w);
                     mc_fail("tpdo-frame-content", "TPDO frame #%d on '%s' is %s, expected %s", n, EN[e], a, b); return MC_OK; }
-            }
+            } else if (X.n > 0 && n < X.n) {
+                char a[40]; w_fmt_frame(a, sizeof a, f);
+                mc_fail("tpdo-frame-content", "TPDO frame #%d on '%s' is %s, which is not among the %d expected", n, EN[e], a, X.n); return MC_OK; }
             n++;
         }
         if (n != X.n) {
@@ -152,5 +167,5 @@ static int step(int e)
     return MC_OK;
 }
 
-static const mc_harness H = { "C12", "c12", 54, cfg_name, build, ev_name, step, 8, 7 };
+static const mc_harness H = { "C12", "c12", 54 + N_TMR2, cfg_name, build, ev_name, step, 8, 7 };
 int main(int argc, char **argv) { return mc_main(argc, argv, &H); }
